@@ -214,7 +214,11 @@ def r03_4(ctx):
         for p in lp.iteration_paths(s):
             if p.end[0] == "ret" or any(v == "Break" for a, v in p.conds):
                 continue  # `?` exits are error propagation (C04)
+            # is something pending from the previous stages?  (an Option accumulator, or an empty
+            # vector standing for "nothing")
             has = [v for a, v in p.conds if a[0] == "disc" and a[1][0] in ("local", "havoc", "phi") and v in ("Some", "None")]
+            if not has:
+                has = ["None" if v == 1 else "Some" for a, v in p.conds if a[0] == "call" and a[1] == "std::vec::Vec::is_empty" and a[2][0][0] in ("local", "havoc", "phi")][:1]
             calls = [e[1].rsplit("::", 1)[1] for e in p.events if e[0] == "call" and e[1] in (ITEM + "::filter", ITEM + "::end")]
             ext = [e for e in p.events if e[0] == "call" and e[1].endswith("Extend>::extend")]
             if has:
